@@ -142,6 +142,9 @@ def gen_random(tier, seed):
 
 def suites(tier, seed):
     return [
+        Suite("timers-with-backlog", "machine", lambda: [__import__("hbgen").session(Rng(seed * 11 + i), "t%d" % i, h_choices=(400, 300), stall_bias=True, steps=(6, 10)) for i in range(12 if tier == "quick" else 120)] + __import__("hbgen").tx_with_data_queued_cases(Rng(seed + 3)),
+              monitor=__import__("props.c01", fromlist=["x"]).monitor, nontrivial=lambda c, il: True, canon=__import__("hbgen").canon, shards=16, shrink=False, timeout=300,
+              rule="content frames queued, the transport stalled at a frame boundary or after a few bytes of a frame, heartbeat timers firing meanwhile (real loop, real timers, case clock): what is written and buffered stays a sequence of whole frames in submission order - nothing is ever inserted into a frame in transit"),
         Suite("wire-e2e", "bp", lambda: __import__("props.c18", fromlist=["x"]).wire_cases(tier), monitor=__import__("props.c18", fromlist=["x"]).e2e_monitor, nontrivial=lambda c, il: True, compare=False, shards=4, timeout=300,
               rule="real connection + I/O thread over the mock transport, publisher threads: 1.5 MiB and 6 MiB queued during a stall and then taken by the transport in partial writes of 256 KiB; a write call failing with EINTR after partial writes: every message on the wire once, intact, in order, whole frames (after a transport failure: a clean prefix)"),
         Suite("publish-sweep", "api", lambda: sweep(tier, seed), monitor=monitor, nontrivial=nontrivial, canon=apigen.canon, exhaustive=True,
